@@ -105,7 +105,18 @@ type Nested struct {
 	L   []Lists
 }
 
+// a map keyed by a struct with a string representation, bound to a Go map with a struct key
+type KS struct{ A, B string }
+type KMapV struct {
+	Keys   []KS
+	Values map[KS]int64
+}
+type KMap struct{ M KMapV }
+
 const schemaText = `
+type KS struct { A String  B String } representation stringjoin { join ":" }
+type KMapV {KS:Int}
+type KMap struct { M KMapV }
 type Scalars struct { B Bool  I Int  F Float  S String  Y Bytes }
 type Widths struct { I8 Int  I16 Int  I32 Int  I Int  U8 Int  U16 Int  U32 Int  U64 Int  F32 Float }
 type Opt struct { O optional Int  N nullable String  R Int  ON optional nullable Int }
@@ -134,17 +145,18 @@ var typeSystem = func() *schema.TypeSystem {
 
 // Entry describes one Go type of the vocabulary.
 type Entry struct {
-	Name   string
-	New    func() interface{}             // pointer to a fresh zero value
-	Values func() []interface{}           // pointers to boundary values
-	View   func(v interface{}) ref.Val    // independent reflection-free reading of the value: type-level view
-	Infer  bool                           // can bindnode infer a schema for it (struct/list/scalars only)
+	Name        string
+	New         func() interface{}          // pointer to a fresh zero value
+	Values      func() []interface{}        // pointers to boundary values
+	View        func(v interface{}) ref.Val // independent reflection-free reading of the value: type-level view
+	Infer       bool                        // can bindnode infer a schema for it (struct/list/scalars only)
+	BuildAtRepr bool                        // the content is handed to the representation builder (its representation equals its type-level view; struct-keyed maps)
 }
 
-func i64p(i int64) *int64     { return &i }
-func strp(s string) *string   { return &s }
-func i64pp(i int64) **int64   { p := &i; return &p }
-func nilpp() **int64          { var p *int64; return &p }
+func i64p(i int64) *int64   { return &i }
+func strp(s string) *string { return &s }
+func i64pp(i int64) **int64 { p := &i; return &p }
+func nilpp() **int64        { var p *int64; return &p }
 func optI(p *int64) ref.Val {
 	if p == nil {
 		return ref.Absent()
@@ -157,7 +169,9 @@ func link(i int) cid.Cid {
 	return c
 }
 
-func innerView(in Inner) ref.Val { return ref.Map(ref.E("A", ref.Int(in.A)), ref.E("B", ref.Str(in.B))) }
+func innerView(in Inner) ref.Val {
+	return ref.Map(ref.E("A", ref.Int(in.A)), ref.E("B", ref.Str(in.B)))
+}
 
 func listsView(x Lists) ref.Val {
 	ints, ptrs, inners := ref.List(), ref.List(), ref.List()
@@ -291,6 +305,27 @@ var Vocabulary = []Entry{
 				}
 			}
 			return ref.Map(ref.E("M", m), ref.E("MP", mp))
+		}},
+	{Name: "KMap", BuildAtRepr: true, New: func() interface{} { return &KMap{} },
+		Values: func() []interface{} {
+			mk := func(keys ...KS) *KMap {
+				o := &KMap{}
+				o.M.Keys = keys
+				o.M.Values = map[KS]int64{}
+				for i, k := range keys {
+					o.M.Values[k] = int64(i + 1)
+				}
+				return o
+			}
+			return []interface{}{mk(), mk(KS{"a", "b"}), mk(KS{"b", "a"}, KS{"a", "b"}), mk(KS{"x", "y"}, KS{"é", "z"}, KS{"a", "b"})}
+		},
+		View: func(v interface{}) ref.Val {
+			x := v.(*KMap)
+			m := ref.Map()
+			for _, k := range x.M.Keys {
+				m.M = append(m.M, ref.E(k.A+":"+k.B, ref.Int(x.M.Values[k])))
+			}
+			return ref.Map(ref.E("M", m))
 		}},
 	{Name: "HasUnion", New: func() interface{} { return &HasUnion{} },
 		Values: func() []interface{} {
